@@ -37,9 +37,12 @@ RULE = ("approx (seed-dependent): exhaustive small sets (below); random / plante
         "non-negative ids (id 0 in about half of the cases); axes through the verified checker at every size, reference optimum for m <= 8. "
         "brute force, every k in 1..m+1: m <= 5 exhaustive (below) + seed-dependent random/planted/cyclic (n <= 4, cyclic "
         "n <= m), m = 1 and m = 2 included; m >= 6: a fixed core of 3 000 profiles (constant seed) + regression profiles + "
-        "10 000 (thorough 23 000) seed-dependent profiles, m = 6-8 (thorough 6-9), odd and even m; the corpus (77 inputs of "
+        "8 500 (thorough 23 000) seed-dependent profiles, m = 6-8 (thorough 6-9), odd and even m; the corpus (77 inputs of "
         "the repaired defect KF-C18-a, the cap defect 07cd506) runs first; every brute-force case is also compared with "
         "the mirror bf_algo, and 150 (thorough 1 200) seed-dependent profiles with m = 9-13 (thorough 9-14) with the mirror only. "
+        "300 (thorough 15 000) profiles with 4-5 hidden axes whose end points are a first-level and a deeper alternative "
+        "(several alternatives of one L-set need partners from later L-sets), m = 9-11, and 240 (thorough 2 400) random "
+        "relabelings / storage orders of the corpus profiles with that structure, against the mirror; "
         "histories (900, thorough 6 000, m <= 7): calls on other instances with overlapping ids first, then approx / brute "
         "force (several k, repeated) on ONE instance object with decoupled storage order / numpy.int64 ids / maintenance "
         "calls in between, instance snapshot compared and the returned partition poisoned after every call, every "
@@ -131,6 +134,56 @@ def planted(rng, alts, k, n, style=None):
         st = rng.randrange(2) if style is None else style
         votes.append(interleave(rng, [sp_vote(rng, b, st) for b in blocks]))
     return votes
+
+
+def cross_level(rng, alts, k, n, pfirst=0.4):
+    """k hidden axes whose two end points are a FIRST-level alternative f_i (ranked last overall by some vote) and a
+    deeper alternative d_i (ranked last within its axis by some vote, but never last overall): a minimum partition has
+    to pair, in one step of the DFS, several alternatives of the first L-set with partners from later L-sets."""
+    a = rand_perm(rng, alts)
+    k = max(1, min(k, len(a) // 2))
+    sizes = [2] * k
+    for _ in range(len(a) - 2 * k):
+        sizes[rng.randrange(k)] += 1
+    axes, p = [], 0
+    for sz in sizes:
+        axes.append(a[p:p + sz])
+        p += sz
+    votes = []
+    for j in range(n):
+        parts, last = [], None
+        for i, ax in enumerate(axes):
+            main = (i == j % k)
+            end_first = main or rng.random() < pfirst         # this vote ranks f_i = ax[0] last within the axis
+            axis = ax if not end_first else ax[::-1]          # sp_vote(style 1) ends with axis[0] or axis[-1] ...
+            v = sp_vote(rng, axis, 1)
+            want = ax[0] if end_first else ax[-1]
+            if v[-1] != want:                                 # ... make it end with the wanted end point
+                v = sp_vote_ending(rng, ax, want)
+            if main:
+                last = v[-1]
+                v = v[:-1]
+            parts.append(v)
+        votes.append(interleave(rng, parts) + [last])
+    return votes
+
+
+def sp_vote_ending(rng, axis, end):
+    """uniform single-peaked ranking on axis whose last alternative is the given end point"""
+    l, r = 0, len(axis) - 1
+    rev = [end]
+    if axis[l] == end:
+        l += 1
+    else:
+        r -= 1
+    while l <= r:
+        if l == r or rng.random() < 0.5:
+            rev.append(axis[l])
+            l += 1
+        else:
+            rev.append(axis[r])
+            r -= 1
+    return rev[::-1]
 
 
 def distinct(rs):
@@ -270,7 +323,7 @@ def generate(tier, seed):
     # the (cheap) cases generated so far so that the oracle's request stream is balanced over its worker processes
     # (the order of the cases has no other meaning)
     det = core_bf_cases()
-    for i in range(10000 if not thorough else 23000):
+    for i in range(8500 if not thorough else 23000):
         if thorough:
             m = 9 if i % 115 == 7 else rng.choice([6, 7, 7, 8])
         else:
@@ -296,6 +349,39 @@ def generate(tier, seed):
         c = bf_case(rand_perm(rng, alts), votes, mults, style=style)
         c["op"] = "c18.algo"
         c["payload"][3] = sorted({1, 2, 3, rng.randint(1, m), (m + 1) // 2, m + 1})
+        out.append(c)
+
+    # ---- brute force against its (proved) mirror on profiles built to need cross-level pairs for several alternatives of
+    # one L-set (seeded C18-9: from the third head of a step on, no partner from a later step), m = 9-11, 4-6 votes;
+    # about 1 of 450 of these profiles exposes that change (measured), corpus/C18/seeded-C18-9-*.json holds fixed ones
+    for i in range(300 if not thorough else 15000):
+        m, kk, n, pf = [(10, 5, 4, 0.4), (10, 5, 5, 0.4), (10, 5, 5, 0.6), (9, 4, 6, 0.4)][i % 4] if not thorough else \
+            [(10, 5, 4, 0.4), (10, 5, 5, 0.4), (10, 5, 5, 0.6), (11, 5, 5, 0.4), (9, 4, 6, 0.4)][i % 5]
+        alts = rand_ids(rng, m)
+        votes = distinct(cross_level(rng, alts, kk, n, pf))
+        c = bf_case(rand_perm(rng, alts), votes, None, style="cross")
+        c["op"] = "c18.algo"
+        c["payload"][3] = [kk - 1, kk, kk + 1]
+        out.append(c)
+    # ... and seed-dependent relabelings (new ids, new storage order of votes and alternatives: the iteration order of
+    # the L-sets changes) of the profiles of corpus/C18/seeded-C18-9-*.json, whose structure is known to need it
+    pool = []
+    try:
+        import json
+        import os
+        pf_ = os.path.join(os.path.dirname(os.path.abspath(__file__)), "..", "..", "corpus", "C18",
+                           "seeded-C18-9-cross-level-third-head.json")
+        pool = [(cc["payload"][0], cc["payload"][1], cc["payload"][3]) for cc in json.load(open(pf_))]
+    except Exception:
+        pool = []
+    for i in range(0 if not pool else (240 if not thorough else 2400)):
+        alts0, votes0, ks0 = pool[i % len(pool)]
+        mp = dict(zip(alts0, rand_ids(rng, len(alts0))))
+        votes = [[mp[a] for a in v] for v in votes0]
+        rng.shuffle(votes)
+        c = bf_case(rand_perm(rng, list(mp.values())), votes, None, style="cross-relabel")
+        c["op"] = "c18.algo"
+        c["payload"][3] = list(ks0)
         out.append(c)
 
     # ---- histories on one instance object, after calls on other instances (purity / aliasing / object lifetime)
